@@ -125,6 +125,28 @@ def quoted_pieces(text):
     return out
 
 
+def in_parallel(fn, reqs, k=14):
+    """heavy requests: `fn` on k slices at once (each slice gets worker processes of its own), results in order"""
+    import concurrent.futures
+    if not reqs:
+        return []
+    size = (len(reqs) + k - 1) // k
+    chunks = [reqs[i:i + size] for i in range(0, len(reqs), size)]
+    with concurrent.futures.ThreadPoolExecutor(len(chunks)) as ex:
+        return [x for part in ex.map(fn, chunks) for x in part]
+
+
+def corr_parallel(ctx, reqs, stream):
+    """ctx.corr with the two sides run on slices in parallel"""
+    pre = in_parallel(lambda c: E.run_pairs(c), reqs)
+    orig = E.run_pairs
+    E.run_pairs = lambda r_, cfg=None, jobs=None: pre
+    try:
+        return ctx.corr(reqs, stream=stream)
+    finally:
+        E.run_pairs = orig
+
+
 def pools(r, n_random, per_pool=10):
     """[(dialect, [texts], kind)]: every one-token variant of the systematic bases, and random subsets of the variants of generated statements"""
     out = []
@@ -219,7 +241,7 @@ def run(ctx):
         if "pool" in w:
             pls.insert(0, (w["dialect"], list(w["pool"]), "witness"))
     preqs = ["POOL %s %s" % (d, " ".join(E.enhex(t) for t in ts)) for d, ts, _ in pls]
-    res, _ = ctx.corr(preqs, stream="pools")
+    res, _ = corr_parallel(ctx, preqs, "pools")
     for (d, ts, kind), (_, a, _) in zip(pls, res):
         if not a.startswith("OK "):
             continue
@@ -234,14 +256,16 @@ def run(ctx):
                 if a2.startswith("OK ") and "checks=ok" not in a2 and a2.split("checks=")[1].split(":")[0] == f["checks"].split(":")[0]:
                     small, obs = pr, a2
                     break
-            pfam.report(ctx, "pool:" + ":".join(f["checks"].split(":")[:2]), {"kind": "input", "command": "POOL", "dialect": d, "input": small[0], "pool": small, "observed": obs[:300],
+            ck = obs.split("checks=")[1].split(":")
+            sig = "pool:" + ck[0] + ":" + (ck[3] if ck[0] == "eq-vs-structure" and len(ck) > 3 else (ck[1] if len(ck) > 1 else ""))
+            pfam.report(ctx, sig, {"kind": "input", "command": "POOL", "dialect": d, "input": small[0], "pool": small, "observed": obs[:300],
                                                                               "detail": obs.split("checks=")[1],
                                                                               "oracle": "c11: two nodes are == exactly when they have the same class and the same canonical dump, equal nodes hash equal, a set keeps exactly the distinct structures",
                                                                               "how_found": "stream pools (%s), shrunk to a pair of texts" % kind})
     cov_reqs = ["PAIRS %s %s" % (d, " ".join(E.enhex(t) for t in ts)) for d, ts, kind in pls if kind == "systematic"] + \
-               ["PAIRS %s %s" % (d, " ".join(E.enhex(t) for t in ts)) for d, ts, kind in pls if kind == "random"][:150]
+               ["PAIRS %s %s" % (d, " ".join(E.enhex(t) for t in ts)) for d, ts, kind in pls if kind == "random"][:80]
     leaves = set()
-    for a in E.run_impl(cov_reqs):
+    for a in in_parallel(lambda c: E.run_impl(c, jobs=1), cov_reqs):
         if a.startswith("OK ") and "leaves=" in a:
             leaves |= set(a.split("leaves=")[1].split(",")) - {"", "?"}
     ctx.cov["leaf_fields_witnessed_by_one_leaf_pairs"] = sorted(leaves)
